@@ -11,6 +11,7 @@ import (
 	"io"
 	"math/rand/v2"
 	"os"
+	"time"
 )
 
 func init() {
@@ -229,6 +230,43 @@ func vfStartFileSystem(r *vfRun, initial []byte) (*vfFileSystem, error) {
 		c2s, s2c = v.srv.c2s, v.srv.s2c
 		v.name = "/f"
 		v.served = func() []byte { b, _ := v.fs.fileData("/f"); return b }
+	case 3:
+		// the package's own in-memory example backend behind a RequestServer
+		h := InMemHandler()
+		mem := h.FileGet.(*root)
+		mem.files["/f"] = &memFile{name: "f", modtime: time.Unix(946684800, 0), content: append([]byte(nil), initial...)}
+		sim.ticks = true // its WriteAt sleeps (on the bubble's clock)
+		srv := &vfServer{sim: sim, kind: 1}
+		srv.c2s = sim.newPipe("c2s")
+		srv.s2c = sim.newPipe("s2c")
+		srv.end = &vfEnd{r: srv.c2s, w: srv.s2c, closeBoth: true}
+		var opts []RequestServerOption
+		if alloc {
+			opts = append(opts, WithRSAllocator())
+		}
+		rs := NewRequestServer(srv.end, h, opts...)
+		srv.rs = rs
+		go func() {
+			err := rs.Serve()
+			srv.mu.Lock()
+			srv.done, srv.err = true, err
+			srv.mu.Unlock()
+			srv.end.Close()
+		}()
+		v.srv = srv
+		c2s, s2c = srv.c2s, srv.s2c
+		v.name = "/f"
+		v.served = func() []byte {
+			mem.mu.Lock()
+			f := mem.files["/f"]
+			mem.mu.Unlock()
+			if f == nil {
+				return nil
+			}
+			f.mu.RLock()
+			defer f.mu.RUnlock()
+			return append([]byte(nil), f.content...)
+		}
 	default:
 		v.peer = vfNewScriptServer(sim)
 		v.peer.files["/f"] = append([]byte(nil), initial...)
